@@ -4,9 +4,12 @@ package harness
 // replay file carries the workload itself and shrinking can delete parts of it.
 
 import (
+	"encoding/hex"
 	"encoding/json"
 	"fmt"
 	"math/rand/v2"
+	"strings"
+	"unicode/utf8"
 
 	aftpb "github.com/openconfig/gribi/v1/proto/gribi_aft"
 	enums "github.com/openconfig/gribi/v1/proto/gribi_aft/enums"
@@ -14,6 +17,7 @@ import (
 	wpb "github.com/openconfig/ygot/proto/ywrapper"
 	"google.golang.org/protobuf/encoding/protojson"
 	"google.golang.org/protobuf/proto"
+	"google.golang.org/protobuf/reflect/protoreflect"
 )
 
 type ScenCfg struct {
@@ -28,6 +32,8 @@ type ScenCfg struct {
 	VRFMode  string   `json:"vrf_mode,omitempty"` // "opt" (server.WithVRFs) or "late" (AddNetworkInstance after New)
 	FullPayl bool     `json:"full_payloads,omitempty"`
 	GetEvery int      `json:"get_every,omitempty"`
+	// Bystander: a second, negotiated, idle session is open throughout and must stay undisturbed.
+	Bystander bool `json:"bystander,omitempty"`
 }
 
 type FlushSpec struct {
@@ -39,9 +45,11 @@ type FlushSpec struct {
 }
 
 type GetSpec struct {
-	NI  string `json:"ni,omitempty"`
-	All bool   `json:"all,omitempty"`
-	AFT int32  `json:"aft"`
+	NI        string `json:"ni,omitempty"`
+	All       bool   `json:"all,omitempty"`
+	AFT       int32  `json:"aft"`
+	Unset     bool   `json:"unset,omitempty"`
+	EmptyName bool   `json:"empty_name,omitempty"`
 }
 
 type Step struct {
@@ -63,37 +71,65 @@ type Scenario struct {
 	Steps  []Step  `json:"steps"`
 }
 
+// Strings that are not valid UTF-8 cannot pass through protojson (nor through
+// proto.Unmarshal); they are carried as a sentinel plus hex in the scenario file.
+const badUTF8Sentinel = "\u00a7BADUTF8:"
+
+func mapStrings(m protoreflect.Message, f func(string) string) {
+	m.Range(func(fd protoreflect.FieldDescriptor, v protoreflect.Value) bool {
+		switch {
+		case fd.IsList():
+			l := v.List()
+			for i := 0; i < l.Len(); i++ {
+				if fd.Kind() == protoreflect.StringKind {
+					l.Set(i, protoreflect.ValueOfString(f(l.Get(i).String())))
+				} else if fd.Kind() == protoreflect.MessageKind && l.Get(i).Message().IsValid() {
+					mapStrings(l.Get(i).Message(), f)
+				}
+			}
+		case fd.IsMap():
+		case fd.Kind() == protoreflect.StringKind:
+			m.Set(fd, protoreflect.ValueOfString(f(v.String())))
+		case fd.Kind() == protoreflect.MessageKind:
+			if v.Message().IsValid() {
+				mapStrings(v.Message(), f)
+			}
+		}
+		return true
+	})
+}
+
 func opJSON(op *spb.AFTOperation) json.RawMessage {
-	b, err := protojson.MarshalOptions{}.Marshal(op)
+	c := proto.Clone(op).(*spb.AFTOperation)
+	mapStrings(c.ProtoReflect(), func(s string) string {
+		if utf8.ValidString(s) {
+			return s
+		}
+		return badUTF8Sentinel + hex.EncodeToString([]byte(s))
+	})
+	b, err := protojson.MarshalOptions{}.Marshal(c)
 	if err != nil {
-		// not UTF-8 clean etc.: fall back to binary in a wrapper
-		bin, _ := proto.Marshal(op)
-		j, _ := json.Marshal(map[string][]byte{"bin": bin})
-		return j
+		panic(fmt.Sprintf("opJSON: %v", err))
 	}
-	var c any
-	json.Unmarshal(b, &c)
-	b, _ = json.Marshal(c) // canonical spacing (protojson output is deliberately unstable)
+	var v any
+	json.Unmarshal(b, &v)
+	b, _ = json.Marshal(v) // canonical spacing (protojson output is deliberately unstable)
 	return b
 }
 
 func opFromJSON(j json.RawMessage) *spb.AFTOperation {
-	var w map[string]json.RawMessage
-	if json.Unmarshal(j, &w) == nil {
-		if raw, ok := w["bin"]; ok && len(w) == 1 {
-			var bin []byte
-			json.Unmarshal(raw, &bin)
-			op := &spb.AFTOperation{}
-			if err := proto.Unmarshal(bin, op); err != nil {
-				panic(err)
-			}
-			return op
-		}
-	}
 	op := &spb.AFTOperation{}
 	if err := protojson.Unmarshal(j, op); err != nil {
 		panic(fmt.Sprintf("bad op json %s: %v", j, err))
 	}
+	mapStrings(op.ProtoReflect(), func(s string) string {
+		if strings.HasPrefix(s, badUTF8Sentinel) {
+			if b, err := hex.DecodeString(s[len(badUTF8Sentinel):]); err == nil {
+				return string(b)
+			}
+		}
+		return s
+	})
 	return op
 }
 
@@ -118,7 +154,8 @@ type gen struct {
 	wKind             [5]int
 	wInvalid          int
 	// approximate view of what exists (to bias towards interesting ops)
-	have map[Key]bool
+	have       map[Key]bool
+	usedZeroID bool
 }
 
 var aftTypeNums = []int{1, 2, 3, 4, 5, 6}
